@@ -3,29 +3,31 @@
 # usage: seedcheck.sh Cnn [worktree-dir] [out-dir] [extra properties to check ...]
 # 1. in the scratch worktree: existing suite passes with the change, demo fails with it, passes without
 # 2. apply patch.diff to /repo, run ./pv check Cnn --tier quick, undo
-id=$1; wt=/tmp/seed/$id; out=/tmp/seed/out/$id; shift
+id=$1; wt=/tmp/seed/$id; out=${SEED_OUT:-/tmp/seed/out}/$id; shift
 props="$id $*"
 export CARGO_NET_OFFLINE=true; T=$wt/target
 res=$out/confirm.txt; : > $res
 cd $wt || exit 2
-git diff --quiet -- src && { echo "no src change in worktree" | tee -a $res; exit 2; }
-cp $out/seeded_demo.rs tests/seeded_demo.rs 2>/dev/null
+# never rely on the worktree's state or on git stash (the stash is shared by all worktrees of a repository)
+git checkout -q -- . ; rm -f tests/seeded_demo.rs
+git apply $out/patch.diff || { echo "patch.diff does not apply to the scratch worktree" | tee -a $res; exit 2; }
+cp $out/seeded_demo.rs tests/seeded_demo.rs
 echo "== suite with change (excluding demo)" >> $res
 CARGO_TARGET_DIR=$T cargo test --workspace --no-fail-fast --offline 2>&1 | grep -E "^test result|Running" > $out/suite_with.txt
 awk '/Running/{t=$2" "$3} /^test result/{print t" :: "$0}' $out/suite_with.txt > $out/per_target.txt
 grep -v seeded_demo $out/per_target.txt | grep FAILED | sed 's/^/non-demo target failing with change: /' >> $res
 grep -v seeded_demo $out/per_target.txt | awk '{for(i=1;i<=NF;i++) if($i=="passed;") s+=$(i-1)} END{print "non-demo tests passed with change: " s}' >> $res
 grep seeded_demo $out/per_target.txt | sed 's/^/demo with change: /' >> $res
-git stash push -q -- src
+git checkout -q -- src
 CARGO_TARGET_DIR=$T cargo test --offline --test seeded_demo 2>&1 | grep "^test result" | sed 's/^/demo without change: /' >> $res
-git stash pop -q
+git apply $out/patch.diff
 cat $res
 cd ${VERIF_ROOT:-/verif}
 git -C /repo status --short | grep -q . && { echo "/repo dirty, abort"; exit 2; }
 git -C /repo apply $out/patch.diff || { echo "patch does not apply to /repo"; exit 2; }
 for p in $props; do
   echo "== ./pv check $p --tier quick (patched)" | tee -a $res
-  ./pv check $p --tier quick 2>&1 | grep -E "VIOLATION|KNOWN-FINDING|^OK|error|Error" | tee -a $res
+  timeout 1500 ./pv check $p --tier quick 2>&1 | grep -E "VIOLATION|KNOWN-FINDING|^OK|error|Error" | tee -a $res
 done
 git -C /repo checkout -- .
 git -C /repo status --short
